@@ -41,3 +41,80 @@ Theorem C07_numeral_independent_of_what_follows : forall t z rest,
   signed_spec t (decimal z ++ rest) = (Some z, nlen (decimal z)).
 Proof. exact signed_reads_written. Qed.
 Print Assumptions C07_numeral_independent_of_what_follows.
+
+(* ------------------------------------------------------------------ *)
+(* Whole parsers (Layout*.v).  doc = (optional header, list of (prefix, literals)) — what parse_dimacs returns;
+   layout = plain data for every choice the property lists: blank runs between tokens and at line starts/ends, LF or
+   CR LF per line end, comment / blank / whitespace-only filler lines before the header, between clauses and between the
+   tokens of a clause (a clause spread over several lines), leading zeros per numeral, 0 or -0 as terminator, the end of
+   the file (no final newline, final newline plus filler, a last comment line without LF); render k d lay : bytes.
+   For every document in the format's domain (doc_ok) and every well-formed layout (lay_ok), EVERY admissible run of the
+   parser program on the rendering returns exactly the document and a clean end — hence any two layouts of a document
+   parse to the same value, for every honest source, schedule and chunk size.  Likewise the solver log: a log is a list of
+   lines (comments, status, value lines split arbitrarily, other lines when unknown lines are ignored); its value
+   depends only on log_value. *)
+From Flussab Require Import Consts ReaderProofs Simulation Cnf CnfProofs Hoare CnfSafe Layout LayoutTok LayoutClause LayoutProofs LayoutLog.
+
+Theorem C07_dimacs_parse_of_any_layout : forall fuel k maxd ih d lay r,
+  (maxd <= max_dimacs_isize)%Z -> doc_ok ih k maxd d = true -> lay_ok k lay = true ->
+  (length (render k d lay) < fuel)%nat -> nlen (render k d lay) < 2 ^ 62 ->
+  aruns (parse_dimacs fuel k maxd ih lrs_init) (view_init (render k d lay) None) r ->
+  exists lr' v', r = ADone (Some (d_hdr d), d_items d, FOk, lr') v'.
+Proof. exact parse_render_all_runs. Qed.
+Print Assumptions C07_dimacs_parse_of_any_layout.
+
+Theorem C07_dimacs_layout_independence : forall fuel k maxd ih d lay1 lay2,
+  (maxd <= max_dimacs_isize)%Z -> doc_ok ih k maxd d = true -> lay_ok k lay1 = true -> lay_ok k lay2 = true ->
+  (length (render k d lay1) < fuel)%nat -> nlen (render k d lay1) < 2 ^ 62 ->
+  (length (render k d lay2) < fuel)%nat -> nlen (render k d lay2) < 2 ^ 62 ->
+  exists a lr1 v1 lr2 v2,
+    srun (parse_dimacs fuel k maxd ih lrs_init) (view_init (render k d lay1) None) = ADone (a, lr1) v1 /\
+    srun (parse_dimacs fuel k maxd ih lrs_init) (view_init (render k d lay2) None) = ADone (a, lr2) v2 /\
+    a = (Some (d_hdr d), d_items d, FOk).
+Proof. exact layout_independence. Qed.
+Print Assumptions C07_dimacs_layout_independence.
+
+Theorem C07_dimacs_layout_independence_concrete : forall fuel k maxd ih d lay1 lay2 (sr1 sr2 : source) (c1 c2 : N),
+  (maxd <= max_dimacs_isize)%Z -> doc_ok ih k maxd d = true -> lay_ok k lay1 = true -> lay_ok k lay2 = true ->
+  (length (render k d lay1) < fuel)%nat -> nlen (render k d lay1) < 2 ^ 62 ->
+  (length (render k d lay2) < fuel)%nat -> nlen (render k d lay2) < 2 ^ 62 ->
+  NoLie (events sr1) -> 1 <= c1 -> stream_of sr1 = (render k d lay1, None) ->
+  NoLie (events sr2) -> 1 <= c2 -> stream_of sr2 = (render k d lay2, None) ->
+  exists a lr1 s1 lr2 s2,
+    crun (parse_dimacs fuel k maxd ih lrs_init) (set_chunk (reader_init sr1) c1) = CDone (a, lr1) s1 /\
+    crun (parse_dimacs fuel k maxd ih lrs_init) (set_chunk (reader_init sr2) c2) = CDone (a, lr2) s2.
+Proof. exact layout_independence_concrete. Qed.
+Print Assumptions C07_dimacs_layout_independence_concrete.
+
+Theorem C07_log_parse_of_any_line_arrangement : forall fuel maxd iu lines fnl r,
+  (maxd <= max_dimacs_isize)%Z -> lines_ok maxd iu lines = true ->
+  (S (length (log_text lines fnl)) < fuel)%nat -> nlen (log_text lines fnl) < 2 ^ 62 ->
+  aruns (parse_log fuel maxd iu lrs_init) (view_init (log_text lines fnl) None) r ->
+  exists lr' v', r = ADone (Ok (log_value lines), lr') v'.
+Proof. exact parse_log_lines_all_runs. Qed.
+Print Assumptions C07_log_parse_of_any_line_arrangement.
+
+Theorem C07_log_layout_independence : forall fuel maxd iu lines1 fnl1 lines2 fnl2,
+  (maxd <= max_dimacs_isize)%Z -> lines_ok maxd iu lines1 = true -> lines_ok maxd iu lines2 = true ->
+  log_value lines1 = log_value lines2 ->
+  (S (length (log_text lines1 fnl1)) < fuel)%nat -> nlen (log_text lines1 fnl1) < 2 ^ 62 ->
+  (S (length (log_text lines2 fnl2)) < fuel)%nat -> nlen (log_text lines2 fnl2) < 2 ^ 62 ->
+  exists a lr1 v1 lr2 v2,
+    srun (parse_log fuel maxd iu lrs_init) (view_init (log_text lines1 fnl1) None) = ADone (a, lr1) v1 /\
+    srun (parse_log fuel maxd iu lrs_init) (view_init (log_text lines2 fnl2) None) = ADone (a, lr2) v2 /\
+    a = Ok (log_value lines1).
+Proof. exact log_layout_independence. Qed.
+Print Assumptions C07_log_layout_independence.
+
+Theorem C07_log_concrete : forall fuel maxd iu lines fnl (sr : source) (c : N),
+  (maxd <= max_dimacs_isize)%Z -> lines_ok maxd iu lines = true ->
+  (S (length (log_text lines fnl)) < fuel)%nat -> nlen (log_text lines fnl) < 2 ^ 62 ->
+  NoLie (events sr) -> 1 <= c -> stream_of sr = (log_text lines fnl, None) ->
+  exists lr' s', crun (parse_log fuel maxd iu lrs_init) (set_chunk (reader_init sr) c) = CDone (Ok (log_value lines), lr') s'.
+Proof. exact parse_log_lines_concrete. Qed.
+Print Assumptions C07_log_concrete.
+
+(* the hypotheses are satisfiable by non-trivial layouts and documents *)
+Theorem C07_layout_examples : lay_ok KCnf ex_layout = true /\ doc_ok false KCnf max_dimacs_i32 ex_doc = true.
+Proof. split; [exact ex_layout_ok|exact ex_doc_ok]. Qed.
+Print Assumptions C07_layout_examples.
